@@ -80,6 +80,10 @@ def addr_classes(rng, case, m):
         s = rng.choice(segs)
         rnd.append(s['start'] + rng.randrange(s['length']))
     cls['random_inseg'] = rnd
+    if len(segs) > 30:
+        # an image spread over many pages: one word of every segment (also of the reserve-only ones, whose pages do not
+        # exist before a device touches them)
+        cls['spread'] = [s['start'] + rng.randrange(s['length']) for s in segs]
     return {k: v for k, v in cls.items() if v}
 
 
@@ -89,7 +93,7 @@ def gen_script(rng, case, m, ncalls):
     cls = addr_classes(rng, case, m)
     names = sorted(cls)
     weights = {'op_words': 6, 'input_word': 2, 'seg_edges': 3, 'zero_tail': 2, 'far': 3, 'page_edge': 3, 'magic': 2,
-               'random_inseg': 2}
+               'random_inseg': 2, 'spread': 40}
     bag = [n for n in names for _ in range(weights.get(n, 1))]
     op_targets = [ip for ip in m.ip_trace[:40]]
     script = {}
@@ -107,7 +111,7 @@ def gen_script(rng, case, m, ncalls):
         if c != 'attach' and rng.random() < 0.3:
             continue
         acts = []
-        for _ in range(rng.choice([1, 2, 2, 3, 4])):
+        for _ in range(rng.choice([1, 2, 2, 3, 4]) * (6 if 'spread' in cls else 1)):
             cname = rng.choice(bag)
             a = rng.choice(cls[cname])
             r = rng.random()
